@@ -701,6 +701,95 @@ pub fn run_case(out: &mut Out, rng: &mut Rng, thorough: bool, case_no: u64) {
     out.nontrivial(fnv(fp.as_bytes()) ^ case_no.wrapping_mul(0x9E3779B97F4A7C15));
 }
 
+/// Directed family (C14, C10): the headers of a fork are announced ahead of its blocks; the fork's
+/// blocks then arrive next to existing siblings; more headers are announced on the fork; the sync
+/// flag is on and the gate is queried after every step.
+pub fn run_announced_fork_case(out: &mut Out, rng: &mut Rng) {
+    let network = Network::Regtest;
+    // a threshold high enough that nothing stabilises during the scenario
+    let thr = *rng.pick(&[8u32, 10, 144]);
+    let world = World::new(network, rng);
+    let mut st = Sync { case: Case { pre_ingest: None, walk: None, world, alive: vec![0], network, thr, mode: DiffMode::Equal }, pending: vec![], undelivered: vec![], now: 2_000_000_000 };
+    c::fresh_init(network, thr as u128, None);
+    can::verif_hooks::set_manual_mode(true);
+    out.begin_case(&format!("sync announced-fork thr={}", thr));
+    out.emit(&format!("c init regtest {} {} {}", thr, c::block_text(&st.case.world.nodes[0].block, network), c::block_hex(&st.case.world.nodes[0].block)), "-");
+    out.emit(&format!("c time {}", st.now), "-");
+    let _ = c::guarded(|| can::set_config(SetConfigRequest { disable_api_if_not_fully_synced: Some(c::set_flag(true)), ..Default::default() }));
+    out.emit("c setcfg syncflag=1", "-");
+    let opts = BlockOpts { max_txs: 1, max_outputs: 2, many_outputs: None, difficulty: 1, mine: true, time: None, bits: None };
+    // one response: blocks (delivered in this order) and announced headers
+    let deliver = |out: &mut Out, st: &mut Sync, rng: &mut Rng, blocks: &[usize], next: &[usize]| -> bool {
+        // reach the await (a heartbeat may first have to process / ingest)
+        for _ in 0..4 {
+            if !st.pending.is_empty() { break; }
+            if emit_hb(out, st, c::UNLIMITED) { return false; }
+        }
+        if st.pending.is_empty() { return true; }
+        let blobs: Vec<Vec<u8>> = blocks.iter().map(|i| block_bytes(&st.case.world.nodes[*i].block)).collect();
+        let hdrs: Vec<Vec<u8>> = next.iter().map(|i| { let mut v = vec![]; st.case.world.nodes[*i].block.header().consensus_encode(&mut v).unwrap(); v }).collect();
+        let text = format!(
+            "c reply complete blocks={} next={}",
+            blobs.iter().map(|b| block_blob_text(b, network)).collect::<Vec<_>>().join("&"),
+            hdrs.iter().map(|h| header_blob_text(h)).collect::<Vec<_>>().join("&")
+        );
+        let reply = GetSuccessorsReply::Ok(GetSuccessorsResponse::Complete(GetSuccessorsCompleteResponse {
+            blocks: blobs,
+            next: hdrs.iter().map(|h| BlockHeaderBlob::from(h.clone())).collect(),
+        }));
+        emit_reply(out, st, &text, reply);
+        if emit_hb(out, st, c::UNLIMITED) { return false; }
+        sync_alive(&mut st.case);
+        out.emit("c q synced", &format!("{}", can::verif_hooks::is_synced() as u8));
+        if rng.chance(1, 2) { endpoint_call(out, rng, st); }
+        true
+    };
+    // 1. a main chain of 2-3 blocks
+    let mut main = vec![0usize];
+    for _ in 0..rng.range(2, 3) {
+        let idx = st.case.world.new_block(rng, *main.last().unwrap(), &opts);
+        main.push(idx);
+    }
+    let mblocks: Vec<usize> = main[1..].to_vec();
+    if !deliver(out, &mut st, rng, &mblocks, &[]) { out.count("case-cut-after-trap"); st.pending.clear(); can::verif_hooks::set_manual_mode(false); return; }
+    // 2. a fork below the tip, announced ahead of its blocks
+    let base = main[rng.below(main.len() as u64 - 1) as usize];
+    let mut fork = vec![];
+    let mut p = base;
+    for _ in 0..rng.range(2, 4) {
+        let idx = st.case.world.new_block(rng, p, &opts);
+        fork.push(idx);
+        p = idx;
+    }
+    let announced = rng.range(1, fork.len() as u64) as usize;
+    if !deliver(out, &mut st, rng, &[], &fork[..announced]) { out.count("case-cut-after-trap"); st.pending.clear(); can::verif_hooks::set_manual_mode(false); return; }
+    // 3. the first one or two fork blocks arrive (next to the main chain's block on the same parent)
+    let arrive = rng.range(1, 2.min(fork.len() as u64)) as usize;
+    if !deliver(out, &mut st, rng, &fork[..arrive], &[]) { out.count("case-cut-after-trap"); st.pending.clear(); can::verif_hooks::set_manual_mode(false); return; }
+    // 4. more headers on the fork: the rest of it and new ones, up to 2-4 blocks above the best tip
+    let base_height = st.case.world.nodes[base].height as u64;
+    let tip_height = (main.len() - 1) as u64;
+    let want = tip_height + rng.range(2, 4) - base_height;
+    while (fork.len() as u64) < want {
+        let idx = st.case.world.new_block(rng, p, &opts);
+        fork.push(idx);
+        p = idx;
+    }
+    if !deliver(out, &mut st, rng, &[], &fork[arrive..]) { out.count("case-cut-after-trap"); st.pending.clear(); can::verif_hooks::set_manual_mode(false); return; }
+    // 5. the gate, asked through every endpoint
+    for _ in 0..4 { endpoint_call(out, rng, &st); }
+    out.emit("c snap", &c::snapshot(network));
+    // 6. the rest of the fork arrives; asked again
+    let rest: Vec<usize> = fork[arrive..].to_vec();
+    if deliver(out, &mut st, rng, &rest, &[]) {
+        for _ in 0..2 { endpoint_call(out, rng, &st); }
+        out.emit("c snap", &c::snapshot(network));
+    }
+    st.pending.clear();
+    can::verif_hooks::set_manual_mode(false);
+    out.count("announced-fork-scenario");
+}
+
 pub fn run(out: &mut Out, ctx: &crate::Ctx) {
     for k in 0..ctx.cases {
         if let Some(only) = ctx.only_case {
@@ -709,6 +798,10 @@ pub fn run(out: &mut Out, ctx: &crate::Ctx) {
             }
         }
         let mut rng = Rng::new(ctx.seed.wrapping_mul(2_000_003).wrapping_add(k));
+        if k == 1 && ctx.shard % 2 == 0 || (ctx.thorough && k % 16 == 5) {
+            run_announced_fork_case(out, &mut rng);
+            continue;
+        }
         run_case(out, &mut rng, ctx.thorough, k);
     }
 }
